@@ -443,7 +443,7 @@ class Engine:
         if lst.elem == "int" and isinstance(v, SInt):
             return v.t
         if lst.elem == "str":
-            return self.to_str(path, v)
+            return sid(path, self.to_str(path, v))
         if lst.elem.startswith("slice") and isinstance(v, SSlice):
             if lst.base is None:
                 lst.base = v.base
@@ -458,7 +458,8 @@ class Engine:
         if lst.elem == "int":
             return SInt(t)
         if lst.elem == "str":
-            return SStr(t)
+            path.assume(SID(STR_OF(t)) == t)      # every element of a list of strings is the id of some string
+            return SStr(STR_OF(t))
         if lst.elem.startswith("slice"):
             P = PairSort()
             return SSlice(lst.base, P.lo(t), P.hi(t))
@@ -536,6 +537,25 @@ class Engine:
         path.env, path.pc, path.heap, path.trace = o.path.env, o.path.pc, o.path.heap, o.path.trace
         return path.env.pop(name)
 
+    def ev_JoinedStr(self, path, e):
+        parts = []
+        for v in e.values:
+            if isinstance(v, ast.Constant):
+                parts.append(SConst(v.value))
+            elif isinstance(v, ast.FormattedValue):
+                if v.format_spec is not None or v.conversion not in (-1, 115):
+                    return SOpaque("str")
+                x = self.ev(path, v.value)
+                if isinstance(x, SInt):
+                    x = SStr(z3.IntToStr(x.t))
+                parts.append(x)
+        res = SConst("")
+        for p_ in parts:
+            if isinstance(p_, SOpaque) or not isinstance(p_, (SStr, SConst)):
+                return SOpaque("str")
+            res = self.concat(path, res, p_, e)
+        return res
+
     def ev_NamedExpr(self, path, e):
         v = self.ev(path, e.value)
         path.env[e.target.id] = v
@@ -563,9 +583,16 @@ class Engine:
         del path.pc[saved:]
         allbool = all(isinstance(v, SBool) for v in vals)
         t = z3.And(*terms) if isinstance(e.op, ast.And) else z3.Or(*terms)
-        if allbool or True:
-            # value used only for truthiness in the supported subset
+        if allbool:
             return SBool(t)
+        # value semantics: `a or b` is a if a is truthy else b; `a and b` is a if a is falsy else b
+        try:
+            res = vals[-1]
+            for v, b in zip(reversed(vals[:-1]), reversed(terms[:-1])):
+                res = self.ite(path, b, v, res) if isinstance(e.op, ast.Or) else self.ite(path, b, res, v)
+            return res
+        except EngineError:
+            return SBool(t)      # used for its truth value only
 
     def ev_IfExp(self, path, e):
         c = self.truth(path, self.ev(path, e.test))
@@ -579,6 +606,10 @@ class Engine:
         return self.ite(path, c, a, b)
 
     def ite(self, path, c, a, b):
+        if isinstance(a, SConst) and isinstance(a.py, int) and not isinstance(a.py, bool):
+            a = SInt(z3.IntVal(a.py))
+        if isinstance(b, SConst) and isinstance(b.py, int) and not isinstance(b.py, bool):
+            b = SInt(z3.IntVal(b.py))
         if isinstance(a, SInt) and isinstance(b, SInt):
             return SInt(z3.If(c, a.t, b.t))
         if isinstance(a, SBool) and isinstance(b, SBool):
@@ -954,6 +985,12 @@ class Engine:
             if isinstance(v, SRef):
                 return v.t
         if k == "list" and isinstance(v, SList):
+            want = kind.split(":")[1] if ":" in kind else "ref"
+            if v.elem != want and elem_sort(v.elem) == elem_sort(want if not want.startswith("slice") else "slice"):
+                # e.g. `self.x = []`: the literal's element kind is only known from the field it is stored in
+                nv = SList(v.id, want, v.base)
+                path.heap.list_set(nv, path.heap.list_get(v))
+                return nv.id
             return v.id
         if k == "list" and isinstance(v, SConst) and isinstance(v.py, tuple):
             return self.new_list(path, [SConst(x) for x in v.py], elem=kind.split(":")[1] if ":" in kind else "str").id
@@ -1171,6 +1208,16 @@ class Engine:
         val = self.dict_value(path, d, z3.Select(path.heap.dict_val(d), k))
         default = self.ev(path, e.args[1]) if len(e.args) > 1 else SNone()
         return self.ite(path, present, val, default)
+
+    def m_SDict_setdefault(self, path, d, e):
+        kv = self.ev(path, e.args[0])
+        k = self.key_term(path, d, kv)
+        default = self.ev(path, e.args[1]) if len(e.args) > 1 else SNone()
+        present = z3.Select(path.heap.dict_has(d), k)
+        dt = self.dict_store_term(path, d, default)
+        h, v = path.heap.dict_has(d), path.heap.dict_val(d)
+        path.heap.dict_set(d, z3.Store(h, k, z3.BoolVal(True)), z3.If(present, v, z3.Store(v, k, dt)))
+        return self.dict_value(path, d, z3.Select(path.heap.dict_val(d), k))
 
     def m_SDict_copy(self, path, d, e):
         n = SDict(path.heap.new_id(), d.key, d.val)
